@@ -525,8 +525,13 @@ def runC18w (t : Tier) : Emit Unit := do
       finals := finals ++ [(.data { d with pes := { d.pes with data := pl } }, s!"data-stuff{extra}")]
     let p ← liftGen genPacket
     finals := finals ++ [(.packet p, "packet")]
+    -- a packet without adaptation field whose payload is shorter than the packet: the rest is 0xff padding, byte by byte
+    let shortLen ← liftGen (randRange 1 150)
+    let shortPl ← liftGen (randBytes shortLen)
+    let pShort : Packet := { adaptationField := none, payload := shortPl, header := { p.header with hasAdaptationField := false, hasPayload := true } }
+    finals := finals ++ [(.packet pShort, "packet-padded")]
     for (fop, name) in finals do
-      let w := writeCallsOf m fop
+      let w := if name = "packet-padded" then 4 + 1 + (184 - shortLen) else writeCallsOf m fop
       let h : History := { period := period, ops := h0.ops ++ [fop] }
       let kind := match fop with | .tables => "tables" | .data _ => "data" | _ => "packet"
       let stride := if t.quick then 23 else 3
